@@ -676,7 +676,7 @@ class PPG3204():
             size = np.clip(size, 1, self.MAX_MEMORY_LEN - start_addrs + 1)
 
         if size > self.MAX_CHUNK_LEN:
-            bits_count = np.concatenate((np.tile([self.MAX_CHUNK_LEN], size//self.MAX_CHUNK_LEN), [size%self.MAX_CHUNK_LEN]))
+            bits_count = [self.MAX_CHUNK_LEN] * (size//self.MAX_CHUNK_LEN) + ([size%self.MAX_CHUNK_LEN] if size%self.MAX_CHUNK_LEN else [])
         else:
             bits_count = [size]
 
@@ -691,7 +691,7 @@ class PPG3204():
                 data_ch.append( str2array(b[k+2:-1], bool).astype(np.uint8) )
                 addr += bit_count
 
-            data.append(np.array(data_ch))
+            data.append(np.concatenate(data_ch))
         return np.array(data)
 
 
